@@ -1,4 +1,4 @@
-"""Regenerates the seeded-defect table of DESIGN.md (section 8.4) from seeded/*/meta.json: python -m vt.seedtable"""
+"""Regenerates the seeded-defect table of DESIGN.md (section 8.5) from seeded/*/meta.json: python -m vt.seedtable"""
 import json
 from pathlib import Path
 
